@@ -446,11 +446,11 @@ func runC02(c *Ctx) {
 		c.sphereFamily(rc[0], rc[1])
 	}
 	if c.Tier == "thorough" {
-		for i := 0; i < 240; i++ {
-			// one parameter up to 512, the other bounded so that the index list stays below ~60 000 entries;
+		for i := 0; i < 120; i++ {
+			// one parameter up to 512, the other bounded so that the index list stays below ~10 000 entries;
 			// 3 of 4 draws are far from square, both directions
 			a := 2 + c.Rng.Intn(511)
-			lim := 10000 / a
+			lim := 1200 / a
 			if lim < 4 {
 				lim = 4
 			}
@@ -468,9 +468,9 @@ func runC02(c *Ctx) {
 			c.sidesFamily(c.Rng.Intn(513))
 		}
 		for i := 0; i < 60; i++ {
-			pl, sd := 2+c.Rng.Intn(511), 3+c.Rng.Intn(12)
+			pl, sd := 2+c.Rng.Intn(511), 3+c.Rng.Intn(4)
 			if i%2 == 0 {
-				pl, sd = 2+c.Rng.Intn(12), 3+c.Rng.Intn(510)
+				pl, sd = 2+c.Rng.Intn(4), 3+c.Rng.Intn(510)
 			}
 			c.extrudeShapeCase(pl, sd, i%3 == 0)
 		}
